@@ -19,7 +19,7 @@ impl LibCase {
     }
 }
 
-pub const KEY_POOL: &[&str] = &["a", "b", "c", "d/a", "d/b", "d/e/f", "g/a", "d/e/b", "h"];
+pub const KEY_POOL: &[&str] = &["a", "b", "c", "d/a", "d/b", "d/e/f", "g/a", "d/e/b", "h", "d/v1.2", "2024.01.15"];
 pub const MISSING: &[&str] = &["zz", "d/zz"];
 pub const EXTERNAL: &[&str] = &["https://example.com/p1", "http://example.org/a/b", "mailto:someone@example.com"];
 
